@@ -32,7 +32,7 @@ func newGoMapObject(value reflect.Value) *goMapObject {
 func (o goMapObject) toKey(name string) reflect.Value {
 	reflectValue, err := stringToReflectValue(name, o.keyType.Kind())
 	if err != nil {
-		panic(err)
+		panic(reflectConversionError(err))
 	}
 	return reflectValue
 }
@@ -40,7 +40,7 @@ func (o goMapObject) toKey(name string) reflect.Value {
 func (o goMapObject) toValue(value Value) reflect.Value {
 	reflectValue, err := value.toReflectValue(o.valueType)
 	if err != nil {
-		panic(err)
+		panic(reflectConversionError(err))
 	}
 	return reflectValue
 }
